@@ -82,7 +82,7 @@ def obligations(tier: str):
     add("ge_pt_f5ctx_create", fixture="f5ctx", rep="ge", decider="pt", gene_length=4, fuel=30, gene_fuel=12)
     add("tree_grow_f5ctx_create_x2", fixture="f5ctx", rep="tree", decider="grow", max_depth=2, rounds=2, timeout=200)
     add("tree_grow_f5ctx_mutate", fixture="f5ctx", rep="tree", decider="grow", max_depth=2, ops=["mutate"], timeout=200)
-    add("tree_grow_f5ctx_crossover", fixture="f5ctx", rep="tree", decider="grow", max_depth=2, ops=["crossover"], timeout=200) if T else None
+    # (tree crossover over f5ctx: not exhausted in 2000 s under C01's identical pipeline - dropped)
     for fxn in ("f6", "f1", "f4"):
         add(f"tree_grow_{fxn}_create", fixture=fxn, rep="tree", decider="grow", max_depth=3 if fxn == "f4" else 2)
         add(f"tree_pt_{fxn}_create", fixture=fxn, rep="tree", decider="pt", fuel=10)
